@@ -1,6 +1,6 @@
 (* Semi-supervised training (Model/Sup.v, [semi_fit]): the competition with [semi = true] is the
-   supervised competition plus a write to [n_label]; with no unlabeled samples the two models
-   agree on every field except [n_label]; the optimum-path-forest theorems of Fit.v hold over all
+   supervised competition plus a write to [n_label] of the unlabeled nodes; with no unlabeled
+   samples the two models coincide; the optimum-path-forest theorems of Fit.v hold over all
    labeled and unlabeled nodes. *)
 From Coq Require Import List Arith Bool ZArith Lia ZifyBool Permutation.
 From OPF Require Import Base.Lists Model.Heap Model.Sup Proofs.HeapBase Proofs.HeapInv
@@ -8,78 +8,57 @@ From OPF Require Import Base.Lists Model.Heap Model.Sup Proofs.HeapBase Proofs.H
 Import ListNotations.
 Close Scope Z_scope.
 
-(* ---------------- simulation between [compete true] and [compete false] ---------------- *)
+(* ---------------- [compete true] = [compete false] when every node is labeled ---------------- *)
 
 Section Sim.
   Context {W : Type}.
   Variables (ltb : W -> W -> bool) (zero top : W).
   Notation nodes := (@nodes W).
 
-  (* equal on every field except [n_label] *)
-  Definition eq_but_label (a b : nodes) : Prop :=
-    n_cost a = n_cost b /\ n_pred a = n_pred b /\ n_plabel a = n_plabel b /\
-    n_status a = n_status b /\ n_relevant a = n_relevant b /\ n_order a = n_order b.
-
-  Lemma eq_but_label_refl a : eq_but_label a a.
-  Proof. unfold eq_but_label; repeat split. Qed.
-
-  Definition sim (sa sb : heap W * nodes) : Prop := fst sa = fst sb /\ eq_but_label (snd sa) (snd sb).
-
-  Lemma fit_relax_sim w p sa sb q : sim sa sb ->
-    sim (fit_relax ltb top true w p sa q) (fit_relax ltb top false w p sb q).
+  (* relaxing a labeled node [q < nl] does not touch [n_label], whatever the flag *)
+  Lemma fit_relax_labeled nl nl' w p st q : q < nl ->
+    fit_relax ltb top true nl w p st q = fit_relax ltb top false nl' w p st q.
   Proof.
-    destruct sa as [h a], sb as [h' b]. intros [Hh (A & B & C & D & E & F)]. cbn [fst snd] in *.
-    subst h'. unfold fit_relax.
-    destruct (negb (Nat.eqb p q) && ltb (hcost_at top h p) (hcost_at top h q));
-      [|split; [reflexivity|unfold eq_but_label; cbn [snd]; repeat split; assumption]].
-    destruct (ltb (wmax ltb (hcost_at top h p) (w p q)) (hcost_at top h q));
-      [|split; [reflexivity|unfold eq_but_label; cbn [snd]; repeat split; assumption]].
-    split; cbn [fst snd]; [reflexivity|].
-    unfold eq_but_label; cbn [n_cost n_pred n_plabel n_status n_relevant n_order].
-    rewrite A, B, C, D, E, F. repeat split.
+    intros Hq. destruct st as [h nd]. unfold fit_relax.
+    rewrite (proj2 (Nat.leb_gt nl q) Hq). reflexivity.
   Qed.
 
-  Lemma fit_fold_sim w p l : forall sa sb, sim sa sb ->
-    sim (fold_left (fit_relax ltb top true w p) l sa) (fold_left (fit_relax ltb top false w p) l sb).
+  Lemma fit_fold_labeled nl nl' w p l : (forall q, In q l -> q < nl) -> forall st,
+    fold_left (fit_relax ltb top true nl w p) l st = fold_left (fit_relax ltb top false nl' w p) l st.
   Proof.
-    induction l as [|q l IH]; intros sa sb Hs; [exact Hs|].
-    cbn [fold_left]. apply IH. apply fit_relax_sim; exact Hs.
+    induction l as [|q l IH]; intros Hl st; [reflexivity|].
+    cbn [fold_left]. rewrite (fit_relax_labeled nl nl') by (apply Hl; left; reflexivity).
+    apply IH. intros x Hx. apply Hl. right. exact Hx.
   Qed.
 
-  Lemma fit_loop_sim n w fuel : forall h a b, eq_but_label a b ->
-    sim (fit_loop ltb top fuel n true w h a) (fit_loop ltb top fuel n false w h b).
+  Lemma fit_loop_labeled nl nl' n w : n <= nl -> forall fuel h nd,
+    fit_loop ltb top fuel n true nl w h nd = fit_loop ltb top fuel n false nl' w h nd.
   Proof.
-    induction fuel as [|f IH]; intros h a b Hab; [split; [reflexivity|exact Hab]|].
-    cbn [fit_loop]. destruct (remove ltb top h) as [h1 [p|]]; [|split; [reflexivity|exact Hab]].
-    destruct Hab as (A & B & C & D & E & F).
-    match goal with |- sim (let '(_, _) := fold_left ?f ?l ?sa in _)
-                           (let '(_, _) := fold_left ?g ?l ?sb in _) =>
-      pose proof (fit_fold_sim w p l sa sb) as X end.
-    match type of X with ?P -> _ => assert (HP : P) end.
-    { split; [reflexivity|]. unfold eq_but_label; cbn [fst snd n_cost n_pred n_plabel n_status n_relevant n_order].
-      rewrite A, B, C, D, E, F. repeat split. }
-    specialize (X HP). clear HP.
-    match type of X with sim ?ra ?rb => destruct ra as [h2 a2], rb as [h2' b2] end.
-    destruct X as [X1 X2]. cbn [fst snd] in X1, X2. subst h2'. apply IH. exact X2.
+    intros Hn. induction fuel as [|f IH]; intros h nd; [reflexivity|].
+    cbn [fit_loop]. destruct (remove ltb top h) as [h1 [p|]]; [|reflexivity].
+    rewrite (fit_fold_labeled nl nl') by (intros q Hq; apply in_seq in Hq; lia).
+    match goal with |- context [fold_left ?f ?l ?a] => destruct (fold_left f l a) as [h2 nd2] end.
+    apply IH.
   Qed.
 
-  Lemma compete_sim n w nd :
-    eq_but_label (compete ltb zero top true n w nd) (compete ltb zero top false n w nd).
+  Lemma compete_labeled nl nl' n w nd : n <= nl ->
+    compete ltb zero top true nl n w nd = compete ltb zero top false nl' n w nd.
   Proof.
-    unfold compete.
+    intros Hn. unfold compete.
     destruct (fold_left (seed_step ltb zero top) (seq 0 n) (h_init top n PMin, nd)) as [h nd1].
-    apply (fit_loop_sim n w n h nd1 nd1). apply eq_but_label_refl.
+    rewrite (fit_loop_labeled nl nl') by exact Hn. reflexivity.
   Qed.
 
   Lemma append_unlabeled_0 (nd : nodes) : append_unlabeled zero nd 0 = nd.
   Proof. destruct nd. unfold append_unlabeled. cbn. rewrite !app_nil_r. reflexivity. Qed.
 
-  (* with an empty unlabeled set, semi-supervised and supervised training agree on
-     cost, pred, predicted label, status, relevance and conquest order *)
+  (* with an empty unlabeled set, semi-supervised training IS supervised training
+     (every field of the node table, for any cost type and comparison) *)
   Theorem semi_empty_is_supervised labels w :
-    eq_but_label (semi_fit ltb zero top labels 0 w) (sup_fit ltb zero top labels w).
+    semi_fit ltb zero top labels 0 w = sup_fit ltb zero top labels w.
   Proof.
-    unfold semi_fit, sup_fit. rewrite append_unlabeled_0, Nat.add_0_r. apply compete_sim.
+    unfold semi_fit, sup_fit. rewrite append_unlabeled_0, Nat.add_0_r.
+    apply compete_labeled. lia.
   Qed.
 End Sim.
 
@@ -123,19 +102,21 @@ Lemma semi_fit_opf :
     (* every node carries the original label of the prototype at the root of its path *)
     (forall q, q < n ->
        exists r k, isproto r /\ reaches pred q r k /\ pred r = None /\ k < n /\
-         plabel q = nth r labels 0 /\ label q = nth r labels 0) /\
+         plabel q = nth r labels 0 /\ (nl <= q -> label q = nth r labels 0)) /\
     (* optimality over the graph of all samples *)
     (forall q s pi, q < n -> isproto s -> path_from_to n s q pi ->
        (cost q <= pathmax w zero pi)%Z) /\
     (forall q, q < n -> exists s pi, isproto s /\ path_from_to n s q pi /\
        pathmax w zero pi = cost q) /\
+    (* labeled samples keep their true label *)
+    (forall q, q < nl -> label q = nth q labels 0) /\
     n_status nd = n_status fp ++ repeat false nu.
 Proof.
   intros zero top labels nu w nl n fp isproto Hzt Hw Hproto nd cost pred plabel label.
   destruct (find_prototypes_shaped Z.ltb top zero labels w) as (A & B & C & D & E & F).
   fold nl fp in A, B, C, D, E, F.
   set (nd0 := append_unlabeled zero fp nu).
-  assert (Hnd : nd = compete Z.ltb zero top true n w nd0) by reflexivity.
+  assert (Hnd : nd = compete Z.ltb zero top true nl n w nd0) by reflexivity.
   assert (L1 : length (n_cost nd0) = n)
     by (unfold nd0, append_unlabeled; cbn [n_cost]; rewrite app_length, repeat_length; lia).
   assert (L2 : length (n_pred nd0) = n)
@@ -153,27 +134,29 @@ Proof.
     apply app_nth1. exact Hq. }
   assert (Hproto' : exists s, s < n /\ nth s (n_status nd0) false = true).
   { destruct Hproto as (s & Hs). exists s. split; [destruct Hs; lia|apply Hst; exact Hs]. }
-  pose proof (compete_order zero top n w true nd0 Hzt Hw L1 L2 L3 L4 L5 Hproto') as (O1 & O2).
-  pose proof (compete_forest zero top n w true nd0 Hzt Hw L1 L2 L3 L4 L5 Hproto') as (F1 & F2 & F3).
-  pose proof (compete_optimal zero top n w true nd0 Hzt Hw L1 L2 L3 L4 L5 Hproto') as (P1 & P2).
-  pose proof (compete_status_label zero top n w true nd0 Hzt Hw L1 L2 L3 L4 L5 Hproto')
-    as (S1 & _ & S3).
+  pose proof (compete_order zero top n w true nl nd0 Hzt Hw L1 L2 L3 L4 L5 Hproto') as (O1 & O2).
+  pose proof (compete_forest zero top n w true nl nd0 Hzt Hw L1 L2 L3 L4 L5 Hproto') as (F1 & F2 & F3).
+  pose proof (compete_optimal zero top n w true nl nd0 Hzt Hw L1 L2 L3 L4 L5 Hproto') as (P1 & P2).
+  pose proof (compete_status_label zero top n w true nl nd0 Hzt Hw L1 L2 L3 L4 L5 Hproto')
+    as (S1 & _ & S2 & S3).
   specialize (S3 eq_refl). rewrite <- Hnd in *.
-  split; [exact O1|]. split; [exact O2|]. split; [|split; [|split; [|split; [|split]]]].
+  assert (Hkeep : forall q, q < nl -> label q = nth q labels 0).
+  { intros q Hq. unfold label. rewrite (S2 q ltac:(lia) Hq). apply Hlab. exact Hq. }
+  split; [exact O1|]. split; [exact O2|]. split; [|split; [|split; [|split; [|split; [|split]]]]].
   - intros q Hq. assert (Hqn : q < n) by (destruct Hq; lia).
     destruct (F1 q Hqn (proj2 (Hst q) Hq)) as (X1 & X2 & X3).
-    destruct (S3 q Hqn) as (Y1 & Y2).
     rewrite Hlab in X3 by (destruct Hq; assumption).
     split; [exact X1|]. split; [exact X2|]. split; [exact X3|].
-    unfold label. rewrite Y1. exact X3.
+    apply Hkeep. destruct Hq; assumption.
   - intros q Hq Hnp. apply F2; [exact Hq|]. intros Hx. apply Hnp. apply Hst. exact Hx.
   - intros q Hq. destruct (F3 q Hq) as (r & k & R1 & R2 & R3 & R4 & R5 & R6).
     apply Hst in R2. rewrite Hlab in R6 by (destruct R2; assumption).
     exists r, k. split; [exact R2|]. split; [exact R3|]. split; [exact R4|]. split; [exact R5|].
-    split; [exact R6|]. unfold label. rewrite (proj1 (S3 q Hq)). exact R6.
+    split; [exact R6|]. intros Hlq. unfold label. rewrite (S3 q Hq Hlq). exact R6.
   - intros q s pi Hq Hs Hpath. apply (P1 q s pi Hq); [destruct Hs; lia|apply Hst; exact Hs|exact Hpath].
   - intros q Hq. destruct (P2 q Hq) as (s & pi & Q1 & Q2 & Q3 & Q4).
     exists s, pi. split; [apply Hst; exact Q2|]. split; [exact Q3|exact Q4].
+  - exact Hkeep.
   - exact S1.
 Qed.
 
